@@ -1259,7 +1259,7 @@ class CifEngine(Engine):
         content = []
         audit = MItem("chunk", "", "core")
         now = seams.CLOCK.t.replace(microsecond=0)
-        audit.pairs = [["audit.creation_date", {"t": "date", "v": now.isoformat()}],
+        audit.pairs = [["audit.creation_date", {"t": "now", "v": now.isoformat()}],
                        ["audit.creation_method", {"t": "auto"}]]
         if len(m.reducers) == 1:
             audit.pairs.append(["computing.diffrn_reduction", {"t": "s", "v": m.reducers[0]}])
@@ -1318,6 +1318,16 @@ class CifEngine(Engine):
             return None if text.strip(WS) else "automatic value is empty"
         if t in ("id", "idref"):
             return None if text.strip(WS) else "empty id"
+        if t == "now":
+            # the creation date is the library's own contribution: it must be a date; which instant
+            # it shows is not part of the property (with the clock seam in place it is the scripted one)
+            import datetime as dt
+
+            try:
+                dt.datetime.fromisoformat(text)
+            except ValueError:
+                return f"creation date {text!r} is not an ISO 8601 date-time"
+            return None
         if t == "date":
             import datetime as dt
 
